@@ -437,14 +437,8 @@ func FaultGrid(d *fw.Driver, res *fw.Result, seed int64, thorough bool, prop str
 			grid = append(grid, cfg{fw.Pick(r, kinds), fw.Pick(r, positions), fw.Pick(r, dirs), r.Intn(5), r.Intn(3) == 0})
 		}
 	} else {
-		// quick: a third of the grid per seed, rotating
-		var g2 []cfg
-		for i, c := range grid {
-			if i%3 == int(seed%3) {
-				g2 = append(g2, c)
-			}
-		}
-		grid = g2
+		// quick: the whole kind x position x direction grid (30 points), one frame choice each
+		_ = grid
 	}
 	for gi, c := range grid {
 		if res.Enough() {
